@@ -14,7 +14,10 @@ def _isnone(v):
 
 def indexer_values(ss, mdl, indexer):
     """The index-field values an ExtVar/ExtParam must follow, read from the *data* (not through services)."""
-    from andes.core.service import DataSelect, BackRef
+    from andes.core.service import DataSelect, BackRef, RefFlatten
+    if isinstance(indexer, RefFlatten):
+        # a flattened back-reference list: follow the data of the referring devices (below)
+        return [i for sub in indexer_values(ss, mdl, indexer.ref) for i in sub]
     if isinstance(indexer, DataSelect):
         opt = indexer.optional.v
         fb = indexer.fallback.v
